@@ -596,6 +596,21 @@ func (e *Exec) runPath(sp *ssa.Package, fn *ssa.Function, h *Harness) (out pathO
 
 // SliceTerms returns the scalar cells of a slice value.
 func SliceTerms(v Value) ([]*Term, bool) {
+	// a table may be held as a slice, an array, or a pointer to an array
+	if p, ok := v.(*Value); ok && p != nil {
+		v = *p
+	}
+	if arr, ok := v.(ArrayV); ok {
+		out := make([]*Term, len(arr))
+		for i := range arr {
+			t, ok := arr[i].(*Term)
+			if !ok {
+				return nil, false
+			}
+			out[i] = t
+		}
+		return out, true
+	}
 	sl, ok := v.(*SliceV)
 	if !ok || sl == nil || !sl.Len.IsConst() {
 		return nil, false
